@@ -242,6 +242,20 @@ class SEnum:
     def __iter__(self):
         return iter(self.concretize())
 
+    def __getattr__(self, name):
+        """Boolean-valued methods of the alternatives (str.isdigit, str.startswith, ...) lifted point-wise."""
+        if name.startswith("_"):
+            raise AttributeError(name)
+        if not all(hasattr(a, name) for a in self._alts):
+            return getattr(self.concretize(), name)
+
+        def method(*args, **kwargs):
+            results = [getattr(a, name)(*args, **kwargs) for a in self._alts]
+            if all(isinstance(r, bool) for r in results):
+                return _ctx.decide(z3.Or(*[self._z == j for j, r in enumerate(results) if r]))
+            return getattr(self.concretize(), name)(*args, **kwargs)
+        return method
+
     __hash__ = None
 
     def __repr__(self):
@@ -300,6 +314,10 @@ class SymMaker:
     def decide(self, expr) -> bool:
         return self.ctx.decide(expr)
 
+    def truth(self, name: str) -> bool:
+        """A symbolic boolean concretised right away by forking (returns a real bool)."""
+        return self.ctx.decide(self.ctx.declare(name, z3.Bool(name)))
+
 
 class PlainMaker:
     """Inputs as ordinary Python values from ``values`` (name -> int/bool)."""
@@ -345,6 +363,9 @@ class PlainMaker:
 
     def slist(self, name, candidates):
         return [c for j, c in enumerate(candidates) if bool(self._get("%s#%d" % (name, j), False))]
+
+    def truth(self, name):
+        return bool(self._get(name, False))
 
     def decide(self, expr):
         raise HarnessError("decide() on a plain maker")
